@@ -36,7 +36,7 @@ fn rows_key(rows: &[Vec<Cell>], ordered: bool) -> Vec<String> { let mut v: Vec<S
 fn sqlite_feature(text: &str) -> &'static str {
     let up = text.to_uppercase();
     if up.contains("(VALUES") && up.contains(") AS ") && up.contains("\" (\"") { "values-column-list" }
-    else if up.contains("CONCAT(") { "concat" } else if up.contains("MD5(") { "md5" } else if up.contains("MEAN(") { "mean" } else if up.contains("VAR(") { "var" } else if up.contains("STD(") { "std" }
+    else if up.contains("CHAR_LENGTH(") { "char-length" } else if up.contains("SUBSTRING(") { "substring" } else if up.contains("TRUNC(") { "trunc" } else if up.contains("CONCAT(") { "concat" } else if up.contains("MD5(") { "md5" } else if up.contains("MEAN(") { "mean" } else if up.contains("VAR(") { "var" } else if up.contains("STD(") { "std" }
     else if up.contains("FIRST(") { "first" } else if up.contains("LAST(") { "last" } else if up.contains("GREATEST(") { "greatest" } else if up.contains("LEAST(") { "least" }
     else if up.contains("FULL JOIN") || up.contains("RIGHT JOIN") { "outer-join" } else { "other" }
 }
@@ -44,7 +44,7 @@ fn sqlite_feature(text: &str) -> &'static str {
 /// the first dialect-specific construct present in a rendered text (classifies read-back failures)
 fn feature(text: &str) -> &'static str {
     let up = text.to_uppercase();
-    for (kw, name) in [("CHECKSUM(", "checksum"), ("TOP (", "top"), ("CONVERT(", "convert"), ("FLOAT(", "float-call"), ("STRING(", "string-call"), ("MEAN(", "mean"), ("VAR(", "var"), ("STD(", "std"), ("STDDEV", "stddev"), ("VARIANCE", "variance"), ("FIRST(", "first"), ("LAST(", "last"), ("MD5(", "md5"), ("HASHBYTES", "hashbytes"),
+    for (kw, name) in [("CHECKSUM(", "checksum"), ("LEN(", "len"), ("TOP (", "top"), ("SUBSTRING(", "substring"), ("TRUNC(", "trunc"), ("CONVERT(", "convert"), ("FLOAT(", "float-call"), ("STRING(", "string-call"), ("MEAN(", "mean"), ("VAR(", "var"), ("STD(", "std"), ("STDDEV", "stddev"), ("VARIANCE", "variance"), ("FIRST(", "first"), ("LAST(", "last"), ("MD5(", "md5"), ("HASHBYTES", "hashbytes"),
                        ("GREATEST(", "greatest"), ("LEAST(", "least"), ("(VALUES", "values"), ("CAST(", "cast"), ("SAFE_CAST", "safe-cast"), ("UNNEST", "unnest"), ("FULL JOIN", "full-join"), ("CASE ", "case"), ("COALESCE(", "coalesce"), ("OFFSET", "offset"), ("LIMIT", "limit")] {
         if up.contains(kw) { return name; }
     }
@@ -142,6 +142,7 @@ pub fn eval(case: &J) -> Outcome {
                 if sig.iter().map(|x| &x.0).collect::<Vec<_>>() != sig2.iter().map(|x| &x.0).collect::<Vec<_>>() { out.fail(&format!("C17/dialect/{d}/readback-names/{shape}"), format!("{sql}: columns {:?} come back from {d} as {:?} ({text})", sig.iter().map(|x| &x.0).collect::<Vec<_>>(), sig2.iter().map(|x| &x.0).collect::<Vec<_>>())); }
                 else if sig != sig2 { let dd = sig.iter().zip(sig2.iter()).find(|(a, b)| a != b).unwrap();
                     let boolnum = dd.0 .1.contains("bool") && !dd.1 .1.contains("bool");
+                    let shape = if sql.contains("log2(") || sql.contains("log10(") { "log-base-inverted" } else if d == "mssql" && sql.contains("ln(") { "ln-written-as-log" } else { shape };
                     out.fail(&format!("C17/dialect/{d}/readback-types/{}", if crate::s_determ::same_modulo_type_structure(&rel, &r2) { "type-structure" } else if boolnum { "boolean-as-number" } else { shape }), format!("{sql}: column `{}` has type {} but {} after {d} render + read", dd.0 .0, dd.0 .1, dd.1 .1)); }
                 else { out.tag(&format!("ok={d}")); }
             }
@@ -159,7 +160,7 @@ pub fn eval(case: &J) -> Outcome {
                     // builder-made extra columns come after the query's own: compare those the reference has
                     let width = b.1.first().map(|r| r.len()).unwrap_or(usize::MAX);
                     let a = (a.0, a.1.into_iter().map(|r| r.into_iter().take(width).collect::<Vec<_>>()).collect::<Vec<_>>());
-                    if rows_key(&a.1, ord) != rows_key(&b.1, ord) { out.fail(&format!("C17/dialect/sqlite/different-rows/{shape}"), format!("{sql}: {text} returns {:?}, reference {:?}", a.1.iter().take(4).collect::<Vec<_>>(), b.1.iter().take(4).collect::<Vec<_>>())); } else { out.tag("sqlite-executed"); } }
+                    if rows_key(&a.1, ord) != rows_key(&b.1, ord) { out.fail(&format!("C17/dialect/sqlite/different-rows/{}", if sql.contains("log2(") || sql.contains("log10(") { "log-base-inverted" } else if sql.contains("tan(") { "division-by-null-is-zero" } else { shape }), format!("{sql}: {text} returns {:?}, reference {:?}", a.1.iter().take(4).collect::<Vec<_>>(), b.1.iter().take(4).collect::<Vec<_>>())); } else { out.tag("sqlite-executed"); } }
                 (Err(e), _) => out.fail(&format!("C17/dialect/sqlite/not-executable/{}", if e.contains("duplicate WITH table name") { duplicate_cte_class(&text) } else { sqlite_feature(&text) }), format!("{sql}: rendered for SQLite as {text}: {e}")),
                 _ => {}
             }
